@@ -140,10 +140,11 @@ CHECKS = {
               "C16_relays_exact_run (Props/C16b: for documents with distinct relay identities, after the bootstrap listing and ANY sequence of replacement "
               "documents the relays reachable through the identity index are exactly those of the last document, with exactly its attributes, in its "
               "order — invariant: object ids in the index are pairwise distinct and allocated, so writing one relay's object never disturbs another's), "
-              "C16_identity_kept (a relay in consecutive documents keeps its Router object). The parser machine incl. the "
+              "C16_identity_kept (a relay in consecutive documents keeps its Router object), C16_names_unique (routers[name] answers exactly for nicknames carried by "
+              "exactly one relay of the latest document, with that relay's object; none or several: not a key). The parser machine incl. the "
               "repaired 'p without w' transition is modelled. The equality of the whole six-index view with viewOfDoc is checked differentially: "
               "real TorState (bootstrap ns/all + NEWCONSENSUS events) vs model view vs spec view after every document, plus object identity."),
-        note=NOTE_COMMON + "Partial: uniqueness of nicknames (routers[name]) and the by-name lists are compared with the spec by the "
+        note=NOTE_COMMON + "Partial: the by-name lists (routers_by_name) and the order of the name index are compared with the spec by the "
              "correspondence run, not proved; the run-level theorems assume distinct relay identities within a document (dir-spec); line classification by the parser's lambdas is rendered by the harness (typed lines).",
         technique="Lean 4: codec bijection (omega/decide), per-step and fold-invariant theorems on the index maintenance; differential correspondence of full views",
         ref='§4 C16'),
